@@ -2,7 +2,7 @@
 //! Bounded exhaustive: all matrices of small shapes over per-ring alphabets x all 16 flag subsets.
 
 use checks::bridge::Bridge;
-use checks::matconv::{all_matrices, from_mat, to_mat};
+use checks::matconv::{from_mat, matrix_at, matrix_count, to_mat};
 use num_bigint::BigInt;
 use vcore::refmat::{same_factors, RMat};
 use vcore::refnum::*;
@@ -151,15 +151,14 @@ where
     R::Ref: RefEuclid,
 {
     for &(m, n) in shapes {
-        let total = alphabet.len().pow((m * n) as u32);
-        let mats: Vec<(RMat<R::Ref>, String)> = if total <= 3_000_000 { all_matrices(m, n, alphabet).collect() } else { panic!("sweep too large") };
-        run.add("inputs", mats.len() as u64);
-        run.par_for(mats.len(), |i| {
+        let total = matrix_count(m, n, alphabet.len());
+        run.add("inputs", total as u64);
+        run.par_for(total, |i| {
             if run.over_budget() {
                 run.cap("wall budget reached before all inputs were explored");
                 return;
             }
-            let (a, code) = &mats[i];
+            let (a, code) = &matrix_at(m, n, alphabet, i);
             if !a.is_zero() {
                 run.add("nonzero_inputs", 1);
             }
